@@ -110,6 +110,7 @@ func runC18(c *Ctx) {
 	// ---------------- time
 	c.timeThresholds()
 	c.asn1WriterRules()
+	c18Extras3(c)
 	printableRules(c, []string{"z/encoding/asn1.parsePrintableString"})
 
 	// ---------------- identifier and length forms
